@@ -20,7 +20,7 @@ varlink-rust-generator binary (stdin and file), the build-script helpers cargo_b
 (in the batch crate's build.rs) and the varlink! / varlink_file! macros; the emitted modules are collected in one \
 batch crate and `cargo check --message-format=json` must report no error (diagnostics are attributed to modules by \
 file name). Definitions that fall into a recorded known-finding class are generated too, but go to a separate \
-batch; their diagnostics must have the recorded shape. Rejection half: near-miss texts and duplicate definitions \
+batch; their diagnostics must have the recorded shape. Rejection half: texts without any definition (empty, blank, comments only), near-miss texts and duplicate definitions \
 must make generate()/compile() return Err without output, the binary exit non-zero with a diagnostic and empty \
 stdout, a build-script helper exit 1, a macro fail to expand. Histories of build-script helper runs sharing one output directory (rejected / valid / rejected-not-newer): each run succeeds exactly when its definition is valid. Non-trivial: a definition with an anonymous type \
 under array/map/optional or a keyword-like name; distinct by definition text.";
@@ -280,6 +280,12 @@ fn rejection(ctx: &mut Ctx, n: usize) {
         // a comment needs its line end: a text cut off inside a trailing comment is not a definition
         bad.push(("cut-off-inside-trailing-comment".into(), format!("{}# cut off here", it.text)));
         bad.push(("cut-off-inside-trailing-comment-crlf".into(), format!("{}# cut off here", it.text.replace('\n', "\r\n"))));
+        if count == 0 {
+            // texts without any definition at all
+            for (k, t) in ["", " ", "\n", "\t \r\n\n", "# only a comment\n", "\n\n# a comment\n\n   \n"].iter().enumerate() {
+                bad.push((format!("no-definition-at-all-{}", k), t.to_string()));
+            }
+        }
         for (why, text) in bad {
             if matches!(recognise(&text), Verdict::Accept(ref a) if a.duplicated_names().is_empty()) {
                 continue; // the mutation happened to stay valid
